@@ -186,7 +186,14 @@ func (e *Exec) bitLen(x *Term) *Term {
 	}
 	l := ts.FreshBounded("bitlen", new(big.Int), nil)
 	ax := e.absTerm(x)
-	for _, c := range DefaultBitLenThresholds {
+	ths := DefaultBitLenThresholds
+	if e.BitLenDense > 0 {
+		ths = nil
+		for c := 0; c <= e.BitLenDense; c++ {
+			ths = append(ths, c)
+		}
+	}
+	for _, c := range ths {
 		// L >= c+1  <=>  |x| >= 2^c
 		e.addDef(ts.Iff(ts.Ge(l, ts.Int64(int64(c+1))), ts.Ge(ax, ts.Int(new(big.Int).Lsh(big.NewInt(1), uint(c))))))
 	}
@@ -198,6 +205,11 @@ func init() {
 	R := func(name string, in Intrinsic) { intrinsics[name] = in }
 	R("math/big.NewInt", func(e *Exec, st *State, fn *ssa.Function, args []Value, depth int) []Outcome {
 		return ret1(st, e.newBig(st, args[0].(*Term)))
+	})
+	R("cosmossdk.io/math.bigIntOverflows", func(e *Exec, st *State, fn *ssa.Function, args []Value, depth int) []Outcome {
+		// model of the dependency helper: overflow is defined as BitLen() > 256 (its own comment)
+		x := e.bigGet(st, args[0])
+		return ret1(st, e.TS.Ge(e.absTerm(x), e.TS.Int(new(big.Int).Lsh(big.NewInt(1), 256))))
 	})
 	R("(*math/big.Int).Set", bigUn(func(e *Exec, x *Term) *Term { return x }))
 	R("(*math/big.Int).Neg", bigUn(func(e *Exec, x *Term) *Term { return e.TS.Neg(x) }))
